@@ -71,8 +71,9 @@ def main():
                 q['other_failures_in_witness_twin'] = len(oth)
             continue
         if fails is None:
-            obligations += r.nprops
-            discharged += r.nprops - len(r.failed)
+            nob = j.meta.get('oracle_sites') or r.nprops      # E3: one latched property stands for every oracle site of the generated program
+            obligations += nob
+            discharged += nob - len(r.failed)
             fails = []
             for f in r.failed:
                 c = mod.confirm(ctx, j, f)      # -> {'confirmed':bool,'key':str,'detail':str,'replay':path}
